@@ -139,6 +139,21 @@ Definition ts_regime_clean (cis at_ eps : Z) (cl : list child) : bool :=
   (0 <=? eps) && forallb (fun c => c_committed c <? cis) cl && stamps_monotone cis cl
   && forallb (fun c => negb ((at_ - eps <=? stamp cis c) && (stamp cis c <=? at_ + eps)) || c_visible c) cl.
 
+(* mixtures of versions with and without commit times *)
+Definition mixed_old_before_window (cis at_ eps : Z) (cl : list child) : bool :=
+  (0 <=? eps) && stamps_monotone cis cl
+  && forallb (fun c => negb (c_committed c <? cis) || (stamp cis c <? at_ - eps)) cl.
+
+(* the two bounds that hold for the selection in every mixture: visible, stamped <= at + eps,
+   after [at] only without commit time and in the parent's changeset; and no version that must be
+   covered (stamped before the window, or visible and stamped <= at) is later *)
+Definition selectable_b (cis cid at_ eps : Z) (cl : list child) (c : child) : bool :=
+  c_visible c && (stamp cis c <=? at_ + eps)
+  && (negb (at_ <? stamp cis c) || ((c_committed c <? cis) && (c_changeset c =? cid)))
+  && (negb ((0 <=? eps) && stamps_monotone cis cl)
+      || forallb (fun d => negb ((stamp cis d <? at_ - eps) || (c_visible d && (stamp cis d <=? at_)))
+                           || Nat.leb (c_vidx d) (c_vidx c)) cl).
+
 Definition annotated_ref_ok (i : ainput) (p0 : parent) (r0 ra : ref) : bool :=
   let cis := i_cis i in
   if filtered_out (o_filter (i_opts i)) r0 then ref_eqb ra r0
@@ -157,11 +172,22 @@ Definition annotated_ref_ok (i : ainput) (p0 : parent) (r0 ra : ref) : bool :=
           | Some c => carries ra c
           | None => o_ignore_incons (i_opts i) && ref_eqb ra r0
           end
+        else if mixed_old_before_window cis (pstamp cis p0) (o_threshold (i_opts i)) cl then
+          (* every version without commit time lies before the window: ground truth
+             (theorem C11_find_visible_old_before_window) *)
+          match current_at cis cl (pstamp cis p0) with
+          | Some c => if c_visible c then carries ra c
+                      else o_ignore_incons (i_opts i) && ref_eqb ra r0
+          | None => o_ignore_incons (i_opts i) && ref_eqb ra r0
+          end
         else
-          (* other mixtures: the annotation is a visible version of this child, or none *)
-          ref_eqb ra r0 ||
+          (* any other mixture: nothing selected (only when inconsistencies are ignored), or a
+             version inside the two bounds proved for every mixture (C11_find_visible_selectable,
+             C11_find_visible_covers) *)
+          (o_ignore_incons (i_opts i) && ref_eqb ra r0) ||
           match find_version cl (r_version ra) with
-          | Some c => c_visible c && carries ra c
+          | Some c => carries ra c
+                      && selectable_b cis (p_changeset p0) (pstamp cis p0) (o_threshold (i_opts i)) cl c
           | None => false
           end
     | HNotFound => o_ignore_missing (i_opts i) && ref_eqb ra r0
@@ -233,6 +259,35 @@ Definition expected_updates_commit (i : ainput) (np : option parent) (cl : list 
         end
     end.
 
+(* updates_exact in the timestamp regime (theorem C11_updates_exact_generic with the declarative
+   selection of theorem 14 for the next parent version): later versions up to (excluding) the
+   version selected for the next parent version, that one included iff stamped before
+   (next parent's timestamp - threshold); nothing selected there: those stamped before that bound *)
+Definition expected_updates_ts (i : ainput) (np : option parent) (cl : list child) (s : child) : list child :=
+  let cis := i_cis i in
+  let eps := o_threshold (i_opts i) in
+  let after := filter (fun c => Nat.ltb (c_vidx s) (c_vidx c)) cl in
+  filter c_visible
+    match np with
+    | None => after
+    | Some n =>
+        let bound := p_timestamp n - eps in
+        match spec_select cis (p_changeset n) (p_timestamp n) eps cl with
+        | Some nx => filter (fun c => Nat.ltb (c_vidx c) (c_vidx nx)
+                                      || (Nat.eqb (c_vidx c) (c_vidx nx) && (stamp cis nx <? bound))) after
+        | None => filter (fun c => stamp cis c <? bound) after
+        end
+    end.
+
+Definition ts_regime_pair (i : ainput) (p0 : parent) (np : option parent) (cl : list child) : bool :=
+  let cis := i_cis i in
+  let eps := o_threshold (i_opts i) in
+  (p_committed p0 <? cis) && ts_regime_clean cis (pstamp cis p0) eps cl
+  && match np with
+     | Some n => (p_committed n <? cis) && ts_regime_clean cis (p_timestamp n) eps cl
+     | None => true
+     end.
+
 Definition updates_exact_ref (i : ainput) (p0 : parent) (np : option parent) (us : list update)
   (j : nat) (r0 ra : ref) : bool :=
   if filtered_out (o_filter (i_opts i)) r0 then true
@@ -246,6 +301,15 @@ Definition updates_exact_ref (i : ainput) (p0 : parent) (np : option parent) (us
           | Some s =>
               if carries ra s then
                 list_eqb Z.eqb (map c_version (expected_updates_commit i np cl s))
+                               (map u_version (filter (fun u => Nat.eqb (u_index u) j) us))
+              else true
+          | None => true
+          end
+        else if ts_regime_pair i p0 np cl then
+          match find_version cl (r_version ra) with
+          | Some s =>
+              if carries ra s then
+                list_eqb Z.eqb (map c_version (expected_updates_ts i np cl s))
                                (map u_version (filter (fun u => Nat.eqb (u_index u) j) us))
               else true
           | None => true
@@ -298,9 +362,12 @@ Definition error_ok (i : ainput) (o : outcome) : bool :=
   else if oc_status o =? 3 then
     (* any other error needs a reason in the input: a datasource failure for a referenced child, or
        (a child deleted between two parent versions) inconsistencies not being ignored *)
-    negb (o_ignore_incons (i_opts i)) ||
-    existsb (fun p => existsb (fun r => match hist_of i (r_id r) with HError => true | _ => false end)
-                              (p_refs p)) (i_parents i)
+    existsb (fun p => existsb (fun r =>
+       match hist_of i (r_id r) with
+       | HError => true
+       | HFound cl => negb (o_ignore_incons (i_opts i)) && existsb (fun c => negb (c_visible c)) cl
+       | HNotFound => false
+       end) (p_refs p)) (i_parents i)
   else false.   (* a panic is never acceptable *)
 
 Definition j2 (i : ainput) (o : outcome) (obs : list tobs) : bool :=
